@@ -1,6 +1,7 @@
 //! Replays a counterexample against the real crate in /repo (path dependency).
 //! usage: verif_replay <kind> <comma-separated bytes | args>
 //! prints `REPRODUCED: <what>` (exit 1) or `NOT-REPRODUCED: <what>` (exit 0)
+mod explore;
 use hpo::annotations::AnnotationId;
 use hpo::HpoTermId;
 use std::panic;
@@ -204,6 +205,19 @@ fn main() {
     let kind = a.get(1).map(String::as_str).unwrap_or("");
     let arg = a.get(2).cloned().unwrap_or_default();
     let bytes = || -> Vec<u8> { arg.split(',').filter(|x| !x.is_empty()).map(|x| x.trim().parse::<u8>().unwrap()).collect() };
+    if kind == "explore" {
+        let tier = a.get(3).cloned().unwrap_or_default();
+        std::process::exit(explore::explore(&arg, tier == "thorough"));
+    }
+    if kind == "case" {
+        let (bad, what) = explore::replay_case(&arg, a.get(3).map(String::as_str).unwrap_or(""));
+        if bad {
+            println!("REPRODUCED: {what}");
+            std::process::exit(1);
+        }
+        println!("NOT-REPRODUCED: {what}");
+        return;
+    }
     let (bad, what) = match kind {
         "c20_try_from" => c20_try_from(bytes()),
         "c20_bytes" => {
